@@ -540,7 +540,7 @@ fn main() {
         let dlen = ctx.tier.pick(1, 2);
         let mut def = CheckDef::new(
             "C06",
-            "model_checking",
+            "exploration",
             "bounded-exhaustive differential: (expr) every token sequence of length 0..=L over the 26-token alphabet (and, beyond L, every WELL-FORMED — stack never underflows, one value left — expression of exactly L+1 tokens over the full alphabet and of L+2 tokens over a reduced value alphabet) hosted in the .cfa rule, the .ra rule and a general-register rule of a one-record symbol file, each evaluated by the real parser + SymbolFile::walk_frame through a mock FrameWalker on 4 register files (+ the unreadable-memory image when memory is used) and compared (Some/None, cfa, ra, final set/cleared/untouched state of every caller register) with the reference interpreter vh::refcfi; (structure) every INIT rule list (1-2 fragments, or base + 0-1) x two delta records (the first in the file 0..=D fragments, the second 0..=1) x 5 address layouts (file order reversed, at the range bounds, below the INIT start, at the range end) with neighbour records before and after, looked up at 10 addresses + below the module base on 2 register files; (amd64-walk_stack) 5^3 register rule choices x 2 cfa x 2 ra rules x 3 callee validity sets through the real walk_stack. distinct_nontrivial = distinct (host, register file, memory image, reference outcome incl. values) for expr; distinct (rule lines in effect, register file) for structure; distinct (validity, reference outcome) for the walk.",
         );
         def.assumptions = vec![
